@@ -4,6 +4,7 @@ import (
 	"bytes"
 	"fmt"
 	"sync"
+	"sync/atomic"
 	"time"
 
 	"github.com/vmware/go-ipfix/pkg/collector"
@@ -33,6 +34,7 @@ type Coll struct {
 	consDone chan struct{}
 	stopCons chan struct{}
 	Pause    func() // optional: called by the consumer before each receive (pacing perturbation)
+	hold     atomic.Int32
 	Keep     func(m *entities.Message) bool
 	// retained holds the last few delivered message objects with the summary taken at
 	// delivery: a delivered message must not change when later messages arrive (it would
@@ -139,12 +141,20 @@ func startCollectorOnce(in collector.CollectorInput, pause func()) (*Coll, error
 	return c, nil
 }
 
+// HoldConsumer makes the consumer of GetMsgChan() stand still (for at most 3 s) until ReleaseConsumer:
+// a backlog then builds up inside the collector.
+func (c *Coll) HoldConsumer()    { c.hold.Add(1) }
+func (c *Coll) ReleaseConsumer() { c.hold.Add(-1) }
+
 func (c *Coll) consume() {
 	defer close(c.consDone)
 	ch := c.CP.GetMsgChan()
 	for {
 		if c.Pause != nil {
 			c.Pause()
+		}
+		for i := 0; i < 6000 && c.hold.Load() > 0; i++ { // HoldConsumer: stand still, at most 3 s
+			time.Sleep(500 * time.Microsecond)
 		}
 		select {
 		case <-c.stopCons:
